@@ -342,6 +342,7 @@ func (p *Prog) Files() hx.Files {
 		{Name: "deep/audit/audit.go", Data: AuditSrc},
 		{Name: "hooks/hooks.go", Data: HooksSrc},
 		{Name: "hooks/v2/hooks.go", Data: HooksV2Src},
+		{Name: "dotfn/dotfn.go", Data: DotFnSrc},
 	}
 	var ext, home strings.Builder
 	ext.WriteString(ExtSrc)
